@@ -283,6 +283,7 @@ def group_reader(ctx, F):
     readerrules.no_early_object_reads(ctx, F)
     readerrules.xref_stream_defaults(ctx, F)
     readerrules.stream_body_start(ctx, F)
+    readerrules.prev_chain(ctx, F)
 
 
 def group_strings(ctx, F):
